@@ -186,7 +186,18 @@ func (r hclRenderer) source(b *hclwrite.Body, i int, s Source) {
 		r.attr(blk, p+"delimiter", "delimiter", strTokens(*s.Delimiter))
 	}
 	if s.Variables != nil {
-		r.attr(blk, p+"variables", "variables", kvsTokens(*s.Variables))
+		attrs := make([]hclwrite.ObjectAttrTokens, 0, len(*s.Variables))
+		for _, e := range *s.Variables {
+			val := strTokens(e.V)
+			switch v := s.TypedValue(e).(type) {
+			case int64:
+				val = hclwrite.TokensForValue(cty.NumberIntVal(v))
+			case bool:
+				val = hclwrite.TokensForValue(cty.BoolVal(v))
+			}
+			attrs = append(attrs, hclwrite.ObjectAttrTokens{Name: keyTokens(e.K), Value: val})
+		}
+		r.attr(blk, p+"variables", "variables", hclwrite.TokensForObject(attrs))
 	}
 }
 
